@@ -370,11 +370,10 @@ def check_adaptive_windows(ctx):
     if ev.issues:
         raise AnalysisError(f"C06.6: {fi.qualname} not canonicalisable: {ev.issues[:3]}")
     # which returned position does each appended-to variable feed?
-    ret = [n_ for n_ in ast.walk(fi.node) if isinstance(n_, ast.Return) and n_.value is not None]
-    if len(ret) != 1 or not isinstance(ret[0].value, ast.Tuple) or len(ret[0].value.elts) < 2 or \
-            not all(isinstance(e, ast.Name) for e in ret[0].value.elts[:2]):
-        raise AnalysisError(f"C06.6: {fi.qualname} does not return its tables as a tuple of names")
-    pos_of = {e.id: i for i, e in enumerate(ret[0].value.elts)}
+    from .common import result_positions
+    pos_of = result_positions(ev, res)
+    if not ({0, 1} <= set(pos_of.values())):
+        raise AnalysisError(f"C06.6: {fi.qualname} does not return its two window tables in a tuple")
     apps = [e for e in ev.events if e.kind == 'append']
     table = {0: [], 1: []}
     for e in apps:
